@@ -89,8 +89,10 @@ impl From<i64> for SnmpInt {
 }
 
 impl From<SnmpInt> for u8 {
+    // Used for small codes (version, security model).
+    // Saturate instead of truncating: 257 must not read as 1.
     fn from(value: SnmpInt) -> Self {
-        value.0 as u8
+        u8::try_from(value.0).unwrap_or(u8::MAX)
     }
 }
 
